@@ -18,9 +18,9 @@ def x_obligations(tier):
         o.append(Obl(f"C14-eq-str[{ti},{pre!r}+{n}]", M, "eq_str", env=env, timeout=T, family="C14-eq", bound=b + "; plain string symbolic"))
     o.append(Obl("C14-hash-set", M, "hash_set", timeout=T, family="C14-hash", bound="13 x 13 pool of same-string / different-type / untyped Sids, real __hash__"))
     parts = [("", 3, ""), ("h/a/", 2, ""), ("h/s/q1/v1/", 1, ""), ("h/s/q1/v1/o/", 1, "")] if tier == "quick" else [("", 4, ""), ("h/a/", 3, ""), ("h/a/x/", 3, ""), ("h/s/q1/v1/", 2, ""), ("h/s/q1/v1/o/", 2, ""), ("h/s/q1/v1/", 1, "/c")]
-    for op in range(9):
+    for op in range(10):
         for pre, n, suf in parts:
-            if tier == "quick" and (op + len(pre)) % 2 and op not in (0, 3):
+            if tier == "quick" and (op + len(pre)) % 2 and op not in (0, 3, 9):
                 continue
             if tier == "quick" and op in (2, 4, 6) and n > 1:
                 n = n - 1
